@@ -206,3 +206,176 @@ pub fn check(c: &OpCase, publics: &[Fq]) -> Result<bool, String> {
         Err(format!("in-circuit {} digest of {} bytes differs from the reference function", c.op, msg.len()))
     }
 }
+
+// ------------------------------------------------------------------ "sp." family: Poseidon sponge sequences
+
+/// p = [fixed_len_mode, step...] where a step k < 90 absorbs k elements and
+/// 99 squeezes; ins = the absorbed elements in order.
+pub mod sponge {
+    use ff::Field;
+    use midnight_circuits::{
+        field::{AssignedNative, NativeChip},
+        hash::poseidon::PoseidonChip,
+        instructions::{AssignmentInstructions, PublicInputInstructions, SpongeCPU, SpongeInstructions},
+        testing_utils::FromScratch,
+    };
+    use midnight_curves::Fq;
+    use midnight_proofs::{
+        circuit::{Layouter, SimpleFloorPlanner, Value},
+        plonk::{Circuit, ConstraintSystem, Error},
+    };
+
+    use super::textbook_permutation;
+    use crate::{
+        core::prng::Prng,
+        ops::OpCase,
+        util::{draw_fq, Fe},
+    };
+
+    type F = Fq;
+    pub const SQUEEZE: u64 = 99;
+
+    pub fn gen_case(rng: &mut Prng) -> OpCase {
+        let fixed = rng.chance(1, 4);
+        let mut p = vec![fixed as u64];
+        let mut n_in = 0usize;
+        if fixed {
+            let parts = rng.range(1, 3);
+            for _ in 0..parts {
+                let k = rng.below(5);
+                p.push(k);
+                n_in += k as usize;
+            }
+            p.push(SQUEEZE);
+        } else {
+            let steps = rng.range(1, 8);
+            for _ in 0..steps {
+                if rng.chance(1, 2) {
+                    p.push(SQUEEZE);
+                } else {
+                    // empty absorbs are legal
+                    let k = *rng.pick(&[0u64, 0, 1, 2, 3, 4, 5]);
+                    p.push(k);
+                    n_in += k as usize;
+                }
+            }
+            p.push(SQUEEZE);
+        }
+        let ins: Vec<Fe> = (0..n_in).map(|_| Fe(draw_fq(rng))).collect();
+        OpCase { op: "sp.poseidon".into(), p, big: vec![], ins, bins: vec![], cols: 4, mbl: 8 }
+    }
+
+    #[derive(Clone)]
+    pub struct SpCircuit {
+        pub case: OpCase,
+        pub known: bool,
+    }
+
+    impl Circuit<F> for SpCircuit {
+        type Config = <PoseidonChip<F> as FromScratch<F>>::Config;
+        type FloorPlanner = SimpleFloorPlanner;
+        type Params = ();
+        fn without_witnesses(&self) -> Self {
+            SpCircuit { case: self.case.clone(), known: false }
+        }
+        fn configure(meta: &mut ConstraintSystem<F>) -> Self::Config {
+            let committed = meta.instance_column();
+            let plain = meta.instance_column();
+            PoseidonChip::configure_from_scratch(meta, &[committed, plain])
+        }
+        fn synthesize(&self, config: Self::Config, mut l: impl Layouter<F>) -> Result<(), Error> {
+            let native = NativeChip::new_from_scratch(&config.0);
+            let chip = PoseidonChip::new_from_scratch(&config);
+            let vals: Vec<Value<F>> = self.case.ins.iter().map(|x| if self.known { Value::known(x.0) } else { Value::unknown() }).collect();
+            let xs: Vec<AssignedNative<F>> = native.assign_many(&mut l, &vals)?;
+            for x in &xs {
+                native.constrain_as_public_input(&mut l, x)?;
+            }
+            let fixed = self.case.p[0] == 1;
+            let mut st = chip.init(&mut l, if fixed { Some(xs.len()) } else { None })?;
+            let mut pos = 0;
+            for step in &self.case.p[1..] {
+                if *step == SQUEEZE {
+                    let o = chip.squeeze(&mut l, &mut st)?;
+                    native.constrain_as_public_input(&mut l, &o)?;
+                } else {
+                    let k = *step as usize;
+                    chip.absorb(&mut l, &mut st, &xs[pos..pos + k])?;
+                    pos += k;
+                }
+            }
+            native.load_from_scratch(&mut l)?;
+            chip.load_from_scratch(&mut l)
+        }
+    }
+
+    /// The sponge over the textbook permutation: rate 2, capacity element =
+    /// declared length (2^64 in variable-length mode), the number of queued
+    /// elements appended as padding in variable-length mode, outputs read from
+    /// the rate part in turn until the next absorb.
+    fn model(fixed: bool, steps: &[u64], ins: &[Fq]) -> Vec<Fq> {
+        let mut reg = [Fq::ZERO, Fq::ZERO, if fixed { Fq::from(ins.len() as u64) } else { Fq::from(1u64 << 32) * Fq::from(1u64 << 32) }];
+        let mut queue: Vec<Fq> = vec![];
+        let mut sq = 0usize;
+        let mut pos = 0;
+        let mut out = vec![];
+        for s in steps {
+            if *s == SQUEEZE {
+                if sq > 0 {
+                    out.push(reg[sq % 2]);
+                    sq = (sq + 1) % 2;
+                    continue;
+                }
+                if !fixed {
+                    let pad = Fq::from(queue.len() as u64);
+                    queue.push(pad);
+                }
+                for chunk in queue.chunks(2) {
+                    for (e, v) in reg.iter_mut().zip(chunk) {
+                        *e += v;
+                    }
+                    textbook_permutation(&mut reg);
+                }
+                queue.clear();
+                sq = 1;
+                out.push(reg[0]);
+            } else {
+                let k = *s as usize;
+                queue.extend(&ins[pos..pos + k]);
+                pos += k;
+                sq = 0;
+            }
+        }
+        out
+    }
+
+    pub fn check(c: &OpCase, publics: &[Fq]) -> Result<bool, String> {
+        let n = c.ins.len();
+        if publics.len() < n {
+            return Err("too few public values".into());
+        }
+        let (ins, outs) = publics.split_at(n);
+        let fixed = c.p[0] == 1;
+        let expect = model(fixed, &c.p[1..], ins);
+        if outs != expect.as_slice() {
+            return Err(format!("sponge sequence {:?}: the circuit publishes other outputs than the sponge over the textbook permutation (first difference at {:?})", &c.p[1..], outs.iter().zip(&expect).position(|(a, b)| a != b)));
+        }
+        // the off-circuit sponge on the same sequence
+        let mut st = <PoseidonChip<F> as SpongeCPU<F, F>>::init(if fixed { Some(n) } else { None });
+        let mut pos = 0;
+        let mut cpu = vec![];
+        for s in &c.p[1..] {
+            if *s == SQUEEZE {
+                cpu.push(<PoseidonChip<F> as SpongeCPU<F, F>>::squeeze(&mut st));
+            } else {
+                let k = *s as usize;
+                <PoseidonChip<F> as SpongeCPU<F, F>>::absorb(&mut st, &ins[pos..pos + k]);
+                pos += k;
+            }
+        }
+        if cpu != expect {
+            return Err(format!("sponge sequence {:?}: the off-circuit sponge gives other outputs than the circuit and the model (first difference at {:?})", &c.p[1..], cpu.iter().zip(&expect).position(|(a, b)| a != b)));
+        }
+        Ok(true)
+    }
+}
